@@ -90,6 +90,32 @@ theorem C01_point_roundtrip_obj (field id : List Char)
 theorem C01_point_hash_in_id :
     extractL ['o', 'w', 'n', 'e', 'r', '#', 'a', '#', 'b'] = .ok ⟨"owner", none, "a#b"⟩ := by rfl
 
+/-! ## Finding the stitch point in a step's selection set -/
+
+/-- **A field of the current level is never shadowed by a deeper field with the same response
+    name.** For every selection set: if a field with response name `name` stands at the current
+    level (through inline fragments — `ResultOps.findLevel`), `executor.FindSelection` returns that
+    field, whatever lies deeper and earlier. Stands on the regenerated fact that the function
+    searches the current level first (`Gen.FindSelection.levelFirst`, read from
+    executor/selection_set.go on every run). -/
+theorem C01_find_selection_level_first (name : String) (ss : List Sel) (f : Sel)
+    (h : ResultOps.findLevel name ss = some f) : ResultOps.findSelection name ss = some f := by
+  have hfact : Gen.FindSelection.levelFirst = true := by decide
+  unfold ResultOps.findSelection
+  simp only [hfact, ↓reduceIte, ResultOps.findSelectionLF, h]
+
+/-- **What the single depth-first loop did** (before the repair): in
+    `{ w { items { n } }  items { n extra } }` the stitch-path name `items` resolved to the field
+    below `w` — a valid query was then answered "root value of result chunk was not a list".
+    Concrete witness on the depth-first search, by evaluation. -/
+theorem C01_find_selection_depth_first_shadowed :
+    let inner : Sel := .field "" "items" [] [] (.named "Item") [] [.field "" "n" [] [] (.named "Int") [] []]
+    let outer : Sel := .field "" "items" [] [] (.list (.named "Item")) [] [.field "" "n" [] [] (.named "Int") [] [], .field "" "extra" [] [] (.named "Int") [] []]
+    let ss : List Sel := [.field "" "w" [] [] (.named "W") [] [inner], outer]
+    (ResultOps.findSelectionDF "items" ss).map ResultOps.selType = some (.named "Item") ∧
+    (ResultOps.findSelectionLF "items" ss).map ResultOps.selType = some (.list (.named "Item")) := by
+  exact ⟨rfl, rfl⟩
+
 /-! ## The semantic core of federation (reference evaluator) -/
 
 /-- **A service answers what the merged-schema server would answer for the same selection.**
